@@ -261,9 +261,16 @@ pub fn drive(script: &[String], code: &[UnOptCode], path: &Path, file: &str, hea
                 }
             }
             "state" | "s" => {
-                let s = format!("{:?}", path.states[k]);
+                // content, not rendering: taken from the state API of the real interpreter's own k-step state
+                let mut st = path.states[k].clone();
+                let mut stacks = std::collections::BTreeMap::new();
+                for i in hyeong::core::state::State::get_all_stack_index(&st) {
+                    let v: Vec<String> = hyeong::core::state::State::get_stack(&mut st, i).iter().map(|n| n.to_string()).collect();
+                    stacks.insert(i, v);
+                }
+                let sel = hyeong::core::state::State::current_stack(&st);
                 d.states_shown += 1;
-                cur.expect(Piece::Exact(s.into_bytes()), "state-display", format!("{}: interpreter state after {} steps", note, k));
+                cur.expect(Piece::StateDump { cur: sel, stacks }, "state-display", format!("{}: interpreter state after {} steps", note, k));
             }
             "break" | "b" => {
                 if words.len() < 2 {
